@@ -92,6 +92,44 @@ Theorem C49_direct_effect : forall cmd params u h st' h',
 Proof. exact direct_effect_model. Qed.
 Print Assumptions C49_direct_effect.
 
+(* Reload of the rewrite rule table (loadConfData -> ReWriteConfLoad -> ReWriteTable.Update), for every history: a
+   successful reload REPLACES the table - the rest of the history does not depend on anything loaded before - and a
+   product that the configuration in force does not list is left untouched by rewriteHandler. *)
+Theorem C49_rewrite_reload_replaces : forall (t c : rw_conf) (ops : list rwop),
+  rw_conf_ok c = true -> run_rw_ops t (RLoad c :: ops) = VL [VZ 1] :: run_rw_ops c ops.
+Proof. exact rw_reload_replaces. Qed.
+Print Assumptions C49_rewrite_reload_replaces.
+Theorem C49_rewrite_dropped_product_untouched : forall (t c : rw_conf) (p : bytes) (u : url) (ops : list rwop),
+  rw_conf_ok c = true -> rw_lookup p c = None ->
+  run_rw_ops t (RLoad c :: RReq p u :: ops) = VL [VZ 1] :: enc_st (mkSt u None) :: run_rw_ops c ops.
+Proof. exact rw_dropped_product_untouched. Qed.
+Print Assumptions C49_rewrite_dropped_product_untouched.
+
+(* The same for the redirect rule table (loadConfData -> redirectConfLoad -> RedirectTable.Update): a successful reload
+   replaces the table, and a product the configuration in force does not list is never redirected. *)
+Theorem C49_redirect_reload_replaces : forall (t c : rd_conf) (ops : list rdop),
+  rd_conf_ok c = true -> run_rd_ops t (DLoad c :: ops) = VL [VZ 1] :: run_rd_ops c ops.
+Proof. exact rd_reload_replaces. Qed.
+Print Assumptions C49_redirect_reload_replaces.
+Theorem C49_redirect_dropped_product : forall (t c : rd_conf) (p : bytes) (u : url) (ops : list rdop),
+  rd_conf_ok c = true -> rd_lookup p c = None ->
+  run_rd_ops t (DLoad c :: DReq p u :: ops) = VL [VZ 1] :: VL [VZ 0] :: run_rd_ops c ops.
+Proof. exact rd_dropped_product_not_redirected. Qed.
+Print Assumptions C49_redirect_dropped_product.
+
+(* ... and for the header rule table (loadConfData -> HeaderConfLoad -> HeaderTable.Update; rules of product "global"
+   apply before the request's product): replaced wholesale; with neither "global" nor the product listed, both
+   headers are left untouched. *)
+Theorem C49_header_reload_replaces : forall vars (t c : hd_conf) (ops : list hdop),
+  hd_conf_ok c = true -> run_hd_ops vars t (HLoad c :: ops) = VL [VZ 1] :: run_hd_ops vars c ops.
+Proof. exact hd_reload_replaces. Qed.
+Print Assumptions C49_header_reload_replaces.
+Theorem C49_header_dropped_product : forall vars (t c : hd_conf) (p : bytes) (a b : header) (ops : list hdop),
+  hd_conf_ok c = true -> hd_lookup s_global c = None -> hd_lookup p c = None ->
+  run_hd_ops vars t (HLoad c :: HReq p a b :: ops) = VL [VZ 1] :: VL [enc_hdr a; enc_hdr b] :: run_hd_ops vars c ops.
+Proof. exact hd_dropped_product_untouched. Qed.
+Print Assumptions C49_header_dropped_product.
+
 (* The executable property evaluated by the harness on the implementation holds of the model on every decodable
    input; no known-finding class is excluded (kf_C49 = 0 everywhere). *)
 Theorem C49_prop_of_model : forall i, wf_C49 i = true -> kf_C49 i = 0 -> prop_C49 i (run_C49 i) = true.
